@@ -290,6 +290,10 @@ const Scn SCN[] = {
   {"tls_srv_et_two_threads", true, true, 64, 48, 16, {{3}, {2}}, {}, false, 1, 1, 1, 2},
   {"tls_srv_et_bidir", true, true, 48, 48, 8, {{20}}, {20}, false, 1, 1, 1, 2},
   {"tls_srv_lt_bidir", true, false, 48, 48, 8, {{20}}, {20}, false, 1, 1, 1, 2},
+  // large buffers: the peer's Finished and its first application record are both in the socket buffer before the
+  // engine runs, so the engine gets ONE readiness edge for handshake completion and data together
+  {"tls_srv_et_coalesced_inbound", true, true, 4096, 4096, 16, {{4}}, {20, 3}, false, 1, 1, 1, 2},
+  {"tls_cli_et_coalesced_inbound", false, true, 4096, 4096, 16, {{4}}, {20, 3}, false, 1, 1, 1, 2},
 };
 } // namespace
 
